@@ -89,7 +89,12 @@ def match_finding(findings, prop, vrec, cfg):
             continue
         ok = True
         for key, want in f.get("trigger", {}).items():
-            if key == "detail_has":
+            if key == "detail_in":
+                d = v["detail"]
+                for k2, w2 in want.items():
+                    if not isinstance(d, dict) or d.get(k2) not in w2:
+                        ok = False
+            elif key == "detail_has":
                 d = v["detail"]
                 for k2, w2 in want.items():
                     if not isinstance(d, dict) or d.get(k2) != w2:
